@@ -48,6 +48,12 @@ type CrashRun struct {
 	deletedIDs      map[uint32]bool
 	seenDsIDs       map[uint32]string // internal dataset id -> "name#incarnation"
 	incarnation     map[string]int
+	listTokens      map[string]*listToken // listing tokens handed out before their dataset was deleted
+}
+
+type listToken struct {
+	token string
+	ids   map[string]bool // what the deleted dataset held
 }
 
 // grabbedDS is a dataset handle a client obtained earlier and keeps using (as a running job's
@@ -517,8 +523,27 @@ func RunCrashScenario(sc *Scenario) (vd *Verdict) {
 			heldLen := len(heldMap)
 			// clients that started paged relationship queries scoped to the dataset before it goes away
 			open := r.startPagedBeforeDelete(op.DS)
+			// ... and a client that has read the first page of its listing (limit 1) and holds the token of the next
+			if vd := r.H.Dataset(op.DS); vd != nil && sc.Property == "C07" {
+				if res, err := vd.GetEntities("", 1); err == nil && res.ContinuationToken != "" && len(res.Entities) > 0 {
+					if r.listTokens == nil {
+						r.listTokens = map[string]*listToken{}
+					}
+					lt := &listToken{token: res.ContinuationToken, ids: map[string]bool{}}
+					if all, err := vd.GetEntities("", 0); err == nil {
+						for _, e := range all.Entities {
+							lt.ids[r.H.Canon(e).ID] = true
+						}
+					}
+					r.listTokens[op.DS] = lt
+				}
+			}
 			werr = r.H.Dsm.DeleteDataset(op.DS)
 			if werr == nil {
+				if v := r.listWithOldTokens("after-delete"); v != nil {
+					fail(v, i)
+					return
+				}
 				if len(heldMap) != heldLen {
 					fail(viol(sc.Property, "shared-state", "deleted-datasets-map-mutated-in-place", "DeleteDataset(%s) added to the map of deleted datasets that lock-free readers (lookups, relationship queries, garbage collector) already hold: a concurrent map read and write ends the process", op.DS), i)
 					return
@@ -535,6 +560,12 @@ func RunCrashScenario(sc *Scenario) (vd *Verdict) {
 				r.settings[op.DS] = st
 			}
 			_, werr = r.H.Dsm.CreateDataset(op.DS, st.config())
+			if werr == nil {
+				if v := r.listWithOldTokens("after-recreate"); v != nil {
+					fail(v, i)
+					return
+				}
+			}
 			mgmt = true
 		case "renameDataset":
 			_, werr = r.H.Dsm.UpdateDataset(op.DS, &server.UpdateDatasetConfig{ID: op.DS2})
@@ -1154,4 +1185,33 @@ func everHeld(m *Model, datasets []string, start string, inverse bool, p relPair
 		}
 	}
 	return false
+}
+
+
+// listWithOldTokens presents listing tokens that were handed out before their dataset was deleted to every
+// dataset that exists now (the re-created namesake among them): a page read with such a token may hold what the
+// dataset asked holds, never what only the deleted dataset held.
+func (r *CrashRun) listWithOldTokens(when string) *Violation {
+	for victim, lt := range r.listTokens {
+		for _, n := range r.M.Names() {
+			ds := r.H.Dataset(n)
+			d := r.M.DS[n]
+			if ds == nil || d == nil {
+				continue
+			}
+			res, err := ds.GetEntities(lt.token, 0)
+			if err != nil {
+				continue // refusing the token is fine
+			}
+			r.Stats["listings_with_old_token"]++
+			for _, e := range res.Entities {
+				c := r.H.Canon(e)
+				if cur := d.LatestOf(c.ID); cur != nil && cur.String() == c.String() {
+					continue
+				}
+				return viol("C07", "deleted-dataset", "old-listing-token-returns-deleted-data:"+when, "a client read the first page of the listing of %s before it was deleted; the token of the next page, presented to dataset %s (%s), returns %s, which that dataset does not hold", victim, n, when, c)
+			}
+		}
+	}
+	return nil
 }
